@@ -305,6 +305,9 @@ def repeat(self, values, axis=None):
 
     else:
         newaxis = values
+        if newaxis.name != name: # the repeated dimension keeps its name, whatever the name of the given axis
+            newaxis = newaxis.copy()
+            newaxis.name = name
 
     # New axes
     newaxes = [ax for ax in self.axes]
